@@ -156,6 +156,7 @@ PROPS = {
     ),
     "C05": dict(
         components=[("flow-C05", 250, 6000)],
+        race=True,
         parallel=8,
         shrink=False,
         trusted=EXEC_TRUST,
